@@ -33,3 +33,46 @@ func DumpLoops(e *Engine, fn *ssa.Function, w io.Writer) {
 		fmt.Fprintf(w, "  loop %d: header block %d (%s) %s phis=%v blocks=%d\n", l.num, l.header.Index, l.header.Comment, pos, phis, len(l.body))
 	}
 }
+
+// DumpCalls prints every call site of fn with the name `on call` clauses match against.
+func DumpCalls(e *Engine, fn *ssa.Function, w io.Writer) {
+	vc := NewVC(e, fn)
+	fr := vc.newFrame(fn, nil)
+	for _, b := range fn.Blocks {
+		for _, ins := range b.Instrs {
+			var c *ssa.CallCommon
+			kind := "call"
+			switch in := ins.(type) {
+			case *ssa.Call:
+				c = &in.Call
+			case *ssa.Defer:
+				c = &in.Call
+				kind = "defer"
+			case *ssa.Go:
+				c = &in.Call
+				kind = "go"
+			}
+			if c == nil {
+				continue
+			}
+			callee := c.StaticCallee()
+			name := fr.callName(c, callee)
+			op := opConst(c)
+			how := "external/unmodelled"
+			switch {
+			case callee != nil && e.Contracts[FuncKey(callee)] != nil:
+				how = "contract"
+			case callee != nil && e.fnInModule(callee) && callee.Blocks != nil:
+				how = "module (inline or mod-set havoc)"
+			case e.contractFor(name) != nil:
+				how = "contract"
+			case callee != nil && isNoEffectExternal(callee.String()):
+				how = "external, no effect"
+			}
+			if op != "" {
+				op = " op=" + op
+			}
+			fmt.Fprintf(w, "  %-6s %-50s%s  [%s]  %s\n", kind, name, op, how, e.Fset.Position(ins.Pos()))
+		}
+	}
+}
